@@ -331,6 +331,57 @@ def rule_total_and_nulls(ctx):
                               "through the server as 1970-01-01 00:00:00 instead of None")
 
 
+def rule_wire_units(ctx):
+    """C17.h: units and field layout of Snowflake's Arrow wire format for TIME / TIMESTAMP columns (AST facts, not text)."""
+    prog = ctx.prog
+    m = prog.mod("arrow")
+
+    def calls(fn, attr):
+        return [c for c in ast.walk(fn) if isinstance(c, ast.Call) and isinstance(c.func, ast.Attribute) and c.func.attr == attr]
+
+    def has_const(call, value):
+        return any(isinstance(a, ast.Constant) and a.value == value for a in ast.walk(call))
+
+    def fields(fn):
+        out = set()
+        for c in calls(fn, "field"):
+            name = next((a.value for a in c.args if isinstance(a, ast.Constant) and isinstance(a.value, str)), None)
+            typ = next((norm(k.value) for k in c.keywords if k.arg == "type"), norm(c.args[1]) if len(c.args) > 1 else "")
+            out.add((name, typ.replace("pa.", "").replace("()", "")))
+        return out
+
+    def default_of(fn, key):
+        for b in ast.walk(fn):
+            if isinstance(b, ast.BoolOp) and isinstance(b.op, ast.Or) and isinstance(b.values[0], ast.Subscript) and isinstance(b.values[0].slice, ast.Constant) \
+                    and b.values[0].slice.value == key and isinstance(b.values[-1], ast.Constant):
+                return b.values[-1].value
+        return "?"
+
+    checks = []
+    if "to_sf" in m.functions:
+        f = m.functions["to_sf"]
+        checks.append(("to_sf", "TIME values (microseconds) are sent as nanoseconds: multiplied by 1000", any(has_const(c, 1000) for c in calls(f, "multiply"))))
+    if "timestamp_to_sf_struct" in m.functions:
+        f = m.functions["timestamp_to_sf_struct"]
+        checks.append(("timestamp_to_sf_struct", "epoch seconds = microseconds / 1_000_000", any(has_const(c, 1_000_000) for c in calls(f, "divide"))))
+        checks.append(("timestamp_to_sf_struct", "fraction = sub-second part in nanoseconds (x 1_000_000_000)",
+                       any(has_const(c, 1_000_000_000) and "subsecond" in norm(c) for c in calls(f, "multiply"))))
+        fs = fields(f)
+        checks.append(("timestamp_to_sf_struct", "struct fields epoch:int64, fraction:int32, timezone:int32 with 1440 (UTC offset + 1440)",
+                       {("epoch", "int64"), ("fraction", "int32"), ("timezone", "int32")} <= fs and any(isinstance(c, ast.Constant) and c.value == 1440 for c in ast.walk(f))))
+    if "to_sf_schema" in m.functions:
+        f = m.functions["to_sf_schema"]
+        checks.append(("to_sf_schema", "field metadata defaults: precision 38, scale 0", default_of(f, "precision") == 38 and default_of(f, "scale") == 0))
+        checks.append(("to_sf_schema", "timestamp struct fields epoch:int64, fraction:int32", {("epoch", "int64"), ("fraction", "int32")} <= fields(f)))
+    ctx.floor("wire-format facts checked", len(checks), 5)
+    for fn, what, ok in checks:
+        ctx.ob("C17.h", what, bool(ok), m.loc(m.functions[fn]))
+        if not ok:
+            ctx.violation("C17.h", "arrow", fn, what, m.loc(m.functions[fn]),
+                          f"arrow.{fn}: {what} — the connector decodes the wire value with exactly these units / fields, so TIME or TIMESTAMP "
+                          f"values fetched through the server differ from the in-process ones")
+
+
 def rule_fraction(ctx):
     prog = ctx.prog
     m = prog.mod("arrow")
@@ -361,6 +412,7 @@ RULES = [
     ("C17.b2", rule_login_instances, ("quick", "thorough")),
     ("C17.e", rule_epoch_floor, ("quick", "thorough")),
     ("C17.f", rule_total_and_nulls, ("quick", "thorough")),
+    ("C17.h", rule_wire_units, ("quick", "thorough")),
     ("C17.c", rule_error_fields, ("quick", "thorough")),
     ("C17.d", rule_fraction, ("quick", "thorough")),
 ]
